@@ -116,6 +116,8 @@ def pcFits : Ty → Val → Bool
   | .unit, .unit => true
   | .struct fs, .struct vs => pcFitsFields fs vs
   | .unitEnum names, .variant i => decide (i < names.length) && decide (i < 2 ^ 32)
+  | .string cap, .str s => decide ((utf8Bytes s).length < 2 ^ 64) &&
+      (match cap with | some c => decide ((utf8Bytes s).length ≤ c) | none => true)
   | _, _ => false
 def pcFitsList (t : Ty) : List Val → Bool
   | [] => true
@@ -125,6 +127,72 @@ def pcFitsFields : List (String × Ty) → List Val → Bool
   | (_, t) :: fs, v :: vs => pcFits t v && pcFitsFields fs vs
   | _, _ => false
 end
+
+theorem char_toNat_lt (c : Char) : c.toNat < 0x110000 := by
+  have h := c.valid
+  simp only [UInt32.isValidChar, Nat.isValidChar] at h
+  have : c.toNat = c.val.toNat := rfl
+  omega
+
+theorem utf8Dec_enc : ∀ (s : List Char) (fuel : Nat), (utf8Bytes s).length < fuel → utf8Dec fuel (utf8Bytes s) = some s
+  | [], fuel, h => by
+    cases fuel with
+    | zero => simp at h
+    | succ f => rfl
+  | c :: cs, fuel, h => by
+    cases fuel with
+    | zero => simp at h
+    | succ f =>
+      have hlt := char_toNat_lt c
+      have hof : Char.ofNat c.toNat = c := Char.ofNat_toNat c
+      simp only [utf8Bytes, List.flatMap_cons] at h ⊢
+      have ih := utf8Dec_enc cs f
+      simp only [utf8Bytes] at ih
+      by_cases h1 : c.toNat < 0x80
+      · have henc : utf8Enc c = [c.toNat] := by simp [utf8Enc, h1]
+        rw [henc] at h ⊢
+        simp only [List.cons_append, List.nil_append, List.length_cons] at h ⊢
+        simp only [utf8Dec, h1, if_true]
+        rw [ih (by omega), hof]; rfl
+      · by_cases h2 : c.toNat < 0x800
+        · have henc : utf8Enc c = [0xC0 + c.toNat / 64, 0x80 + c.toNat % 64] := by simp [utf8Enc, h1, h2]
+          rw [henc] at h ⊢
+          simp only [List.cons_append, List.nil_append, List.length_cons] at h ⊢
+          have a1 : ¬ (0xC0 + c.toNat / 64 < 0x80) := by omega
+          have a2 : 0xC2 ≤ 0xC0 + c.toNat / 64 ∧ 0xC0 + c.toNat / 64 < 0xE0 := by omega
+          have a3 : 0x80 ≤ 0x80 + c.toNat % 64 ∧ 0x80 + c.toNat % 64 < 0xC0 := by omega
+          have e : (0xC0 + c.toNat / 64 - 0xC0) * 64 + (0x80 + c.toNat % 64 - 0x80) = c.toNat := by omega
+          simp only [utf8Dec, a1, a2, a3, and_self, if_true, if_false, e]
+          rw [ih (by omega), hof]; rfl
+        · by_cases h3 : c.toNat < 0x10000
+          · have henc : utf8Enc c = [0xE0 + c.toNat / 4096, 0x80 + (c.toNat / 64) % 64, 0x80 + c.toNat % 64] := by
+              simp [utf8Enc, h1, h2, h3]
+            rw [henc] at h ⊢
+            simp only [List.cons_append, List.nil_append, List.length_cons] at h ⊢
+            have a1 : ¬ (0xE0 + c.toNat / 4096 < 0x80) := by omega
+            have a2 : ¬ (0xC2 ≤ 0xE0 + c.toNat / 4096 ∧ 0xE0 + c.toNat / 4096 < 0xE0) := by omega
+            have a3 : 0xE0 ≤ 0xE0 + c.toNat / 4096 ∧ 0xE0 + c.toNat / 4096 < 0xF0 := by omega
+            have a4 : 0x80 ≤ 0x80 + c.toNat / 64 % 64 ∧ 0x80 + c.toNat / 64 % 64 < 0xC0 ∧
+                0x80 ≤ 0x80 + c.toNat % 64 ∧ 0x80 + c.toNat % 64 < 0xC0 := by omega
+            have e : (0xE0 + c.toNat / 4096 - 0xE0) * 4096 + (0x80 + c.toNat / 64 % 64 - 0x80) * 64 +
+                (0x80 + c.toNat % 64 - 0x80) = c.toNat := by omega
+            simp only [utf8Dec, a1, a2, a3, a4, and_self, if_true, if_false, e]
+            rw [ih (by omega), hof]; rfl
+          · have henc : utf8Enc c = [0xF0 + c.toNat / 262144, 0x80 + (c.toNat / 4096) % 64, 0x80 + (c.toNat / 64) % 64,
+                0x80 + c.toNat % 64] := by simp [utf8Enc, h1, h2, h3]
+            rw [henc] at h ⊢
+            simp only [List.cons_append, List.nil_append, List.length_cons] at h ⊢
+            have a1 : ¬ (0xF0 + c.toNat / 262144 < 0x80) := by omega
+            have a2 : ¬ (0xC2 ≤ 0xF0 + c.toNat / 262144 ∧ 0xF0 + c.toNat / 262144 < 0xE0) := by omega
+            have a3 : ¬ (0xE0 ≤ 0xF0 + c.toNat / 262144 ∧ 0xF0 + c.toNat / 262144 < 0xF0) := by omega
+            have a4 : 0xF0 ≤ 0xF0 + c.toNat / 262144 ∧ 0xF0 + c.toNat / 262144 < 0xF5 := by omega
+            have a5 : 0x80 ≤ 0x80 + c.toNat / 4096 % 64 ∧ 0x80 + c.toNat / 4096 % 64 < 0xC0 ∧
+                0x80 ≤ 0x80 + c.toNat / 64 % 64 ∧ 0x80 + c.toNat / 64 % 64 < 0xC0 ∧
+                0x80 ≤ 0x80 + c.toNat % 64 ∧ 0x80 + c.toNat % 64 < 0xC0 := by omega
+            have e : (0xF0 + c.toNat / 262144 - 0xF0) * 262144 + (0x80 + c.toNat / 4096 % 64 - 0x80) * 4096 +
+                (0x80 + c.toNat / 64 % 64 - 0x80) * 64 + (0x80 + c.toNat % 64 - 0x80) = c.toNat := by omega
+            simp only [utf8Dec, a1, a2, a3, a4, a5, and_self, if_true, if_false, e]
+            rw [ih (by omega), hof]; rfl
 
 theorem pc_int_rt (sg : Bool) (bits : Nat) (v : Int) (rest : Bytes) (hb : 1 ≤ bits)
     (hlo : intMin sg bits ≤ v) (hhi : v ≤ intMax sg bits) (bs : Bytes) (he : pcEnc (.int sg bits) (.int v) = some bs) :
@@ -199,7 +267,25 @@ theorem pc_rt : ∀ (v : Val) (t : Ty) (bs rest : Bytes), pcFits t v = true → 
       cases b <;> simp [pcDec]
     | _ => simp [pcFits] at hf
   | .float _, t, _, _, hf, _ => by cases t <;> simp [pcFits] at hf
-  | .str _, t, _, _, hf, _ => by cases t <;> simp [pcFits] at hf
+  | .str str, t, bs, rest, hf, he => by
+    cases t with
+    | string cap =>
+      simp only [pcFits, Bool.and_eq_true, decide_eq_true_eq] at hf
+      simp only [pcEnc, Option.some.injEq] at he
+      subst he
+      have hv := unvarint_roundtrip 64 (utf8Bytes str).length (by omega) hf.1 (utf8Bytes str ++ rest)
+      simp only [maxVarBytes] at hv
+      have hnl : ¬ ((utf8Bytes str ++ rest).length < (utf8Bytes str).length) := by simp
+      have htake : (utf8Bytes str ++ rest).take (utf8Bytes str).length = utf8Bytes str := List.take_left
+      have hdrop : (utf8Bytes str ++ rest).drop (utf8Bytes str).length = rest := List.drop_left
+      simp only [pcDec, List.append_assoc, hv, hnl, if_false, htake, hdrop,
+        utf8Dec_enc str ((utf8Bytes str).length + 1) (by omega)]
+      cases cap with
+      | none => rfl
+      | some c =>
+        have hc : (utf8Bytes str).length ≤ c := by simpa using hf.2
+        simp [hc]
+    | _ => simp [pcFits] at hf
   | .none, t, bs, rest, hf, he => by
     cases t with
     | opt t' =>
